@@ -46,6 +46,12 @@ pub fn run_c08<A: Cx>(d: &mut Drv<A>, scale: usize, all: bool) {
                     d.emit(json!({"op": "ktoseq", "dst": 1, "ks": 0}));
                     d.emit(json!({"op": "obs", "src": {"base": "kmer", "r": 0, "path": []}, "gets": [0, k - 1, k], "nths": [0, k - 1, k]}));
                     // iteration = overlapping windows of width K
+                    // a partially advanced k-mer iterator finished by consumers that iterate internally
+                    for _ in 0..3 {
+                        let adv = d.rng.range(0, 3);
+                        let consumer = *d.rng.pick(&crate::scen::c11::CONSUMERS);
+                        d.emit(json!({"op": "itmix", "kind": "kmers", "x": sl(0, o, o + n), "w": k, "adv": adv, "consumer": consumer}));
+                    }
                     for (a, b) in [(o, o + n), (o, o + k), (o, o + k - 1), (0, o + n + 1)] {
                         d.emit(json!({"op": "kmers", "src": sl(0, a, b), "k": k}));
                         d.emit(json!({"op": "itrun", "kind": "windows", "x": sl(0, a, b), "y": whole(0), "w": k}));
